@@ -208,7 +208,8 @@ Lemma add_inv s n : per_inv s ->
     max_size s' = max_size s /\ tcap s' = tcap s /\
     size s' = Nat.min (size s + n) (max_size s) /\
     max_prio s' = max_prio s /\
-    (forall j, j < n -> sleaf s' ((tree_ptr s + j) mod max_size s) = powa (max_prio s)).
+    (forall j, j < n -> sleaf s' ((tree_ptr s + j) mod max_size s) = powa (max_prio s)) /\
+    cursor s' = (cursor s + n) mod max_size s.
 Proof.
   intros [Hsh Hsz Hptr Hps Hcur HL]. unfold Model.per_add.
   set (s0 := {| max_size := max_size s |}).
@@ -485,7 +486,7 @@ Theorem new_gets_max s n : per_inv s ->
     size s' = Nat.min (size s + n) (max_size s) /\
     forall j, j < n -> sleaf s' ((tree_ptr s + j) mod max_size s) = powa (max_prio s).
 Proof.
-  intros HI. destruct (add_inv s n HI) as (s' & E & HI' & _ & _ & Hs & Hm & Hnew).
+  intros HI. destruct (add_inv s n HI) as (s' & E & HI' & _ & _ & Hs & Hm & Hnew & _).
   exists s'. split; [exact E|]. split; [exact HI'|]. split; [exact Hm|]. split; [exact Hs|exact Hnew].
 Qed.
 
